@@ -51,7 +51,7 @@ File1(root) == << [path |-> "a", imports |-> <<>>, wxs |-> <<>>, defs |-> <<>>, 
 (* F1: every attribute family x every value kind, on a normal element and on <slot> *)
 DynVals == {EV(e) : e \in Exprs} \cup {MV(<<S("x"), P(EA)>>), MV(<<P(EA), S(" "), P(EB)>>), MV(<<P(EA), P(EB)>>),
                                        MV(<<P(EA), S("y")>>)}
-StaticVals == {None, SV("s1"), SV(""), SV("a<b&\"q'")}
+StaticVals == {None, SV("s1"), SV(""), SV("a<b&\"q'\t\nz")}      \* (tab and line feed: their references have one hex digit)
 AllVals == DynVals \cup StaticVals
 
 F1Attrs ==
@@ -192,6 +192,11 @@ ScopeShapes(body) ==
                Elem("e", <<>>, body)>>)>>,
       <<Elem("dyn-c", <<Attr("plain", "sv-x", SV("Sx"))>>,
              <<Elem("c", <<Attr("slot:", "x", None)>>, <<For(EV(Id("l")), "x", "index", "", body)>>)>>)>>,
+      (* two siblings with slot values, the later one renaming ITS value to the name of the earlier one's *)
+      <<Elem("dyn-c", <<Attr("plain", "sv-x", SV("Sx")), Attr("plain", "sv-y", SV("Sy"))>>,
+             <<Elem("c", <<Attr("slot:", "x", None)>>, body),
+               Elem("d", <<Attr("slot:", "y", SV("x"))>>, body),
+               Elem("e", <<Attr("slot:", "x", SV("y")), Attr("slot:", "y", SV("x"))>>, body)>>)>>,
       <<For(EV(Id("l")), "x", "index", "", <<Elem("dyn-c", <<Attr("plain", "sv-x", EV(Id("x")))>>,
              <<Elem("c", <<Attr("slot:", "x", SV("index"))>>, body)>>)>>)>> }
 WxsLate == [n |-> "zz", late |-> TRUE, members |-> << <<"k", VS("Zk")>> >>]
@@ -211,6 +216,16 @@ F6 == {FileW(<<>>, <<>>, r) : r \in ScopeShapes(ProbeAll)}
       \cup UNION { {FileW(<<>>, <<>>, <<For(EV(Id("l")), "x", "index", "",
                        <<Elem("v", <<Attr("plain", "p", EV(e)), Attr("class", "", MV(<<S("c"), P(e)>>))>>, <<>>)>>)>>) :
                        e \in Positions(n)} : n \in {"x", "y"} }
+      (* the scope variable (and, next to it, a data field) as the value of every attribute family *)
+      \cup { FileW(w, <<>>, <<For(EV(Id("l")), "x", "index", "",
+                       <<Elem("v", <<Attr(fn[1], fn[2], EV(e)), Attr("plain", "q", EV(Id("y")))>>, <<>>)>>)>>) :
+                 fn \in { <<"plain", "p">>, <<"class", "">>, <<"style", "">>, <<"id", "">>, <<"slot", "">>, <<"data:", "k">>, <<"data-", "k">>,
+                          <<"mark:", "k">>, <<"model:", "v">>, <<"change:", "p">>, <<"bind", "tap">>, <<"catch", "tap">>, <<"capture-bind", "tap">> },
+                 e \in {Id("x"), Id("index"), Mem(Id("m"), "k")}, w \in {<<WxsM>>} }
+      \cup { FileW(<<>>, <<>>, <<Elem("dyn-c", <<Attr("plain", "sv-x", SV("Sx"))>>,
+                       <<Elem("c", <<Attr("slot:", "x", None), Attr(fn[1], fn[2], EV(Id("x")))>>, <<>>),
+                         SlotEl(EV(Id("x")), <<Attr("slot:", "x", None), Attr("plain", "p", EV(Id("x"))), Attr("mark:", "k", EV(Id("x")))>>)>>)>>) :
+                 fn \in { <<"mark:", "k">>, <<"data:", "k">>, <<"id", "">>, <<"bind", "tap">> } }
 
 
 -----------------------------------------------------------------------------
